@@ -38,7 +38,7 @@ Lemma push_buffer_ok b size x :
 Proof.
   intros Hok Hlen. unfold push_buffer.
   destruct (size >? 0) eqn:Es.
-  - unfold buf_append_head, win_step. rewrite (memN_set b x Hok).
+  - rewrite win_step_unfold. unfold buf_append_head. rewrite (memN_set b x Hok).
     destruct (memN x (blist b)) eqn:Em.
     + (* already buffered *)
       assert (E : buf_len b >? size = false) by (unfold buf_len, zlen; lia).
@@ -79,7 +79,7 @@ Proof.
     exists b. assert (Hn : Z.to_nat size = 0%nat) by lia.
     assert (Hb : blist b = []) by (destruct (blist b); simpl in *; [auto|lia]).
     repeat split; auto; try apply Hok.
-    unfold win_step. rewrite Hb. simpl. rewrite Hn. now rewrite lastn_zero.
+    rewrite win_step_unfold, Hb. simpl. rewrite Hn. now rewrite lastn_zero.
 Qed.
 
 (* ------------------------------------------------------------------ subscription *)
@@ -200,7 +200,7 @@ Proof.
     + unfold slice_from.
       assert (E1 : ((zlen w - r <? 0) || (zlen w - r >? zlen w)) = false).
       { apply orb_false_iff. split; lia. }
-      rewrite E1. unfold burst_of, lastn.
+      rewrite E1. rewrite burst_of_unfold. unfold lastn.
       assert (E2 : (length w - Z.to_nat (Z.min b (zlen w)))%nat = Z.to_nat (zlen w - r)).
       { unfold r, zlen in *. destruct (b <? 0) eqn:E; lia. }
       rewrite E2.
@@ -208,9 +208,9 @@ Proof.
       { rewrite zlen_nat, skipn_length. unfold r, zlen in *. destruct (b <? 0) eqn:E; lia. }
       now rewrite E3.
     + assert (E : burst_of b w = w).
-      { unfold burst_of. apply lastn_all. unfold r, zlen in *. destruct (b <? 0) eqn:E; lia. }
+      { rewrite burst_of_unfold. apply lastn_all. unfold r, zlen in *. destruct (b <? 0) eqn:E; lia. }
       now rewrite E.
-  - assert (E : burst_of b [] = []) by (unfold burst_of; apply lastn_all; simpl; lia).
+  - assert (E : burst_of b [] = []) by (rewrite burst_of_unfold; apply lastn_all; simpl; lia).
     rewrite E. reflexivity.
 Qed.
 
